@@ -18,7 +18,7 @@ ASSUMPTIONS = ['empty index lists are not generated', 'set_order only with order
                'slice assignment is not generated (property speaks of item assignment)']
 REQUIRED_CLASSES = ['ordered', 'plain', 'op=insert', 'op=setitem', 'op=delitem', 'op=pop', 'op=getitem_list',
                     'op=getitem_slice', 'op=extend', 'op=by_label', 'rejected_nonframe', 'rejected_incompatible',
-                    'mid_insert', 'insert_out_of_range', 'op=clone', 'op=swap', 'twin_frames_both_members', 'constructed_with_t_overwrite', 'selector_tuple']
+                    'mid_insert', 'insert_out_of_range', 'op=clone', 'op=swap', 'ordered_from_plain', 'twin_frames_both_members', 'constructed_with_t_overwrite', 'selector_tuple']
 
 N_COMPAT, N_INCOMPAT, N_NON = 8, 7, 6
 POOL = N_COMPAT + N_INCOMPAT + N_NON
@@ -391,6 +391,24 @@ def run_case(case, ctx):
                 raised, oc = attempt('clone', lambda: stg.OrderedCadence(frame_list=cad, order=st_['order']), True)
             else:
                 raised, oc = attempt('clone', lambda: stg.Cadence(frame_list=cad), True)
+                # an ORDERED cadence built from this plain one labels its (so far unlabelled) members like one built from the list
+                order2 = ('ABACAD' * (len(model) // 6 + 1))[:max(1, len(model))]
+                had = {id(f): f.metadata.get('order_label') for f in model}      # a label a frame already carries is kept
+                r2, oc2 = attempt('ordered_from_plain', lambda: stg.OrderedCadence(frame_list=cad, order=order2), True)
+                if not r2:
+                    obs.cls('ordered_from_plain')
+                    if [id(f) for f in oc2.frames] != [id(f) for f in model]:
+                        obs.fail('ordered_from_plain:members', '')
+                    final = {}
+                    for p_, f in enumerate(model):
+                        final.setdefault(id(f), had[id(f)] if had[id(f)] is not None else order2[p_])
+                    got_l = [f.metadata.get('order_label') for f in oc2.frames]
+                    if got_l != [final[id(f)] for f in model]:
+                        obs.fail('ordered_from_plain:labels', f'{got_l} vs {[final[id(f)] for f in model]}')
+                    for L in 'ABCD':
+                        rl, sel = attempt('ordered_from_plain:by_label', lambda: oc2.by_label(L), True)
+                        if not rl and [id(f) for f in sel] != [id(f) for f in model if final[id(f)] == L]:
+                            obs.fail('ordered_from_plain:by_label', L)
             if not raised:
                 other['cad'], other['model'], other['order'] = oc, list(model), st_['order']
                 if [id(f) for f in oc.frames] != [id(f) for f in model]:
